@@ -145,6 +145,8 @@ namespace CDNS {
          */
         void write(const char* p, std::size_t size) override {
             m_out.write(p, size);
+            if (m_out.fail())
+                throw CborOutputException("Couldn't write to the output file!");
         }
 
         /**
@@ -156,9 +158,13 @@ namespace CDNS {
             if (value.type() != typeid(std::string))
                 return;
 
-            close();
+            // Open the new output even if the old one couldn't be completed, then report the failure
+            bool complete = close_file();
             m_value = boost::any_cast<std::string>(value);
             open();
+
+            if (!complete)
+                throw CborOutputException("Couldn't write all data to the output file!");
         }
 
         protected:
@@ -176,17 +182,36 @@ namespace CDNS {
          * @brief Close the opened output file with given name
          */
         void close() override {
+            if (!close_file())
+                std::cerr << "Couldn't write all data to the output file!" << std::endl;
+        }
+
+        /**
+         * @brief Flush and close the output file and give it its final name
+         * @return `true` if all data was written, `false` otherwise (the incomplete
+         * file keeps its ".part" name)
+         */
+        bool close_file() {
+            bool complete = true;
             try {
                 if (m_out.is_open()) {
                     m_out.flush();
+                    complete = !m_out.fail();
                     m_out.close();
-                    if (std::rename((m_value + m_extension + ".part").c_str(), (m_value + m_extension).c_str()))
+                    complete = complete && !m_out.fail();
+                    m_out.clear();
+                    if (complete && std::rename((m_value + m_extension + ".part").c_str(), (m_value + m_extension).c_str())) {
                         std::cerr << "Couldn't rename the output file!" << std::endl;
+                        complete = false;
+                    }
                 }
             }
             catch (std::exception& e) {
                 std::cerr << e.what() << std::endl;
+                complete = false;
             }
+
+            return complete;
         }
 
         std::string m_value;
